@@ -2,6 +2,7 @@
 From Coq Require Import String List.
 Import ListNotations.
 From Gokrb5.model Require Import LockOrder.
+From Gokrb5.proofs Require Import LockOrderSound.
 From Gokrb5.gen Require Import LockEvents.
 Open Scope string_scope.
 
@@ -22,3 +23,19 @@ Proof. vm_compute. reflexivity. Qed.
 (* the obligation is not vacuous: the session table's lock really is held while a session's lock is taken *)
 Theorem nesting_exists : In ("client.sessions.mux", "client.session.mux") (edges gen_lock_events).
 Proof. vm_compute. tauto. Qed.
+
+(* the tables used above are closed under one more level of calls, so the verdicts cover call chains of every depth *)
+Theorem generated_lock_order_sound_check : lock_order_sound_check lock_ranks gen_lock_events = true.
+Proof. vm_compute. reflexivity. Qed.
+Theorem generated_no_block_sound_check : no_block_sound_check gen_lock_events = true.
+Proof. vm_compute. reflexivity. Qed.
+
+(* hence, in the semantics of call chains: every lock acquired while another is held is ranked strictly above it,
+   no lock class is re-acquired while held, and no blocking channel operation is reached with a lock held *)
+Theorem generated_nested_locks_ranked : forall h l, nested gen_lock_events h l ->
+  exists rh rl, rank_of lock_ranks h = Some rh /\ rank_of lock_ranks l = Some rl /\ rh < rl.
+Proof. exact (lock_order_check_sound lock_ranks gen_lock_events generated_lock_order_sound_check). Qed.
+Theorem generated_no_reentry : forall l, ~ nested gen_lock_events l l.
+Proof. exact (lock_order_no_reentry lock_ranks gen_lock_events generated_lock_order_sound_check). Qed.
+Theorem generated_never_blocks_under_lock : ~ blocks_under_lock gen_lock_events.
+Proof. exact (no_block_check_sound gen_lock_events generated_no_block_sound_check). Qed.
